@@ -7,14 +7,14 @@ LEVEL = 'model_checking'
 FILES = ['mesonbuild/mtest.py']
 ENCODED = ['mtest.TestHarness._run_tests (the real coroutine with its asyncio.Semaphore, futures deque, complete/complete_all, done callbacks, cancel_all_tests)',
            'TestHarness.process_test_result/is_bad_result/total_failure_count', 'TestRunExitCode.complete', 'TestRun._complete/complete_skip',
-           'TestResult.is_ok/is_bad', 'TestHarness.doit (job-count clamp, runner creation; rebuild and run_tests stubbed)', 'mtest.test_slice', 'TestHarness.get_tests/test_suitable/test_in_suites/split_suite_string']
+           'TestResult.is_ok/is_bad', 'SingleTestRunner.__init__ (time limit from test timeout x --timeout-multiplier, is_parallel)', 'TestSubprocess.wait / complete_all / TestSubprocess._kill (virtual clock, stub process, os.killpg recorded)', 'TestHarness.doit (job-count clamp, runner creation; rebuild and run_tests stubbed)', 'mtest.test_slice', 'TestHarness.get_tests/test_suitable/test_in_suites/split_suite_string']
 EXPLANATION = ('The real _run_tests coroutine is driven on a manually stepped asyncio event loop: SingleTestRunner.run is a stub awaiting a future that only the harness '
                'resolves, so WHICH running test completes next at every quiescent point is a choose() explored exhaustively, while is_parallel of every runner is a '
                'symbolic Boolean, the result class symbolic, and job count / repeat / maxfail enumerated. Classification runs TestRunExitCode.complete on a symbolic '
                '(unbounded integer) return code. Slicing parses a symbolic SLICE/NUM string with the real test_slice and checks the partition through get_tests.')
-ASSUMPTIONS = ['SingleTestRunner.run is replaced by a stub (no subprocesses, no timeouts, no process-group kills)', 'signal handlers are installed but never triggered (no SIGINT/SIGTERM)',
+ASSUMPTIONS = ['in the scheduling obligations SingleTestRunner.run is replaced by a stub (no subprocesses); the time limit is decided separately: the real SingleTestRunner.__init__ / TestSubprocess.wait / complete_all / _kill run against a stub process on an asyncio loop whose clock only the harness moves, os.killpg is recorded and ends the stub process', 'signal handlers are installed but never triggered (no SIGINT/SIGTERM)',
                'loggers list empty (console/log rendering and testlog.json serialisation outside)', 'at most 4 (quick) / 5 (thorough) runners, 1-3 jobs']
-OUT = 'real subprocesses, timeouts and process-group kills, SIGINT handling, console/log rendering, testlog.json serialisation, priority sorting in the backend'
+OUT = 'real subprocesses and real time (the limit is enforced on a virtual clock; a program that ignores SIGTERM, the SIGKILL escalation timing), SIGINT handling, console/log rendering, testlog.json serialisation, priority sorting in the backend'
 MANIFEST = dict(
     text='Bounded model checking of the real scheduler coroutine over ALL completion orders (interleavings are a solver-visible choice), all parallel/serial flag '
          'assignments and result classes up to the bound; the classification rule for every integer exit status; the slice partition for every n<=6; selection by (overlapping) name patterns; the process exit status for ANY number of bad results.',
@@ -283,6 +283,140 @@ def ob_select():
     return h
 
 
+# ---------------------------------------------------------------- the time limit: computed by the real SingleTestRunner.__init__, enforced by the real TestSubprocess.wait
+def mk_test(timeout, is_parallel=True, should_fail=False):
+    from mesonbuild.backend.backends import TestSerialisation, TestProtocol
+    from mesonbuild.utils.core import EnvironmentVariables
+    return TestSerialisation(name='t', project_name='p', suite=['p'], fname=['/bin/true'], is_cross_built=False, exe_wrapper=None, needs_exe_wrapper=False,
+                             is_parallel=is_parallel, cmd_args=[], env=EnvironmentVariables(), expected_fail=should_fail, expected_exitcode=None, timeout=timeout, workdir=None,
+                             extra_paths=[], protocol=TestProtocol.EXITCODE, priority=0, cmd_is_built=False, cmd_is_exe=False, depends=[], version='1.0', verbose=False, exe_fname='/bin/true')
+
+
+def mk_options(mult, interactive, nproc):
+    return argparse.Namespace(timeout_multiplier=mult, interactive=interactive, num_processes=nproc, benchmark=False, wrapper=None, gdb=False, gdb_path='gdb', no_rebuild=False,
+                              verbose=False, quiet=False)
+
+
+def ob_limit_computation():
+    """the real SingleTestRunner.__init__ with a symbolic (unbounded integer or absent) test timeout, a symbolic (integer or absent) --timeout-multiplier, --interactive
+    and the job count symbolic: a test has NO limit iff its timeout is absent or <= 0 (test(): 'if timeout is <= 0 the test has infinite duration'), the multiplier is <= 0
+    (-t: '<= 0 to disable timeout') or the run is interactive; otherwise the limit is timeout x multiplier. A test declared non-parallel is never marked parallel."""
+    def h():
+        t = None if decide(sym_bool('test_timeout_absent')) else sym_int('test_timeout')
+        m = None if decide(sym_bool('multiplier_absent')) else sym_int('timeout_multiplier', -3, 12)
+        inter = decide(sym_bool('interactive')); par = decide(sym_bool('declared_parallel')); nproc = sym_int('num_processes', 1, 4)
+        r = M.SingleTestRunner(mk_test(t, par), {'MALLOC_PERTURB_': '0'}, 'p:t', mk_options(m, inter, nproc))
+        nolimit = inter or t is None or decide(t <= 0) or (m is not None and decide(m <= 0))
+        if nolimit:
+            check(r.timeout is None, 'no limit: timeout absent or <= 0, multiplier <= 0, or interactive'); cover('unlimited')
+        else:
+            check(r.timeout is not None, 'a positive timeout with a positive (or no) multiplier is a limit')
+            if r.timeout is not None:
+                check(eq(r.timeout, t if m is None else t * m), 'the limit is timeout x multiplier')
+                check(decide(r.timeout > 0), 'a limit is positive')
+            cover('limited')
+        check((not r.is_parallel) or (par and not inter and decide(nproc > 1)), 'only a test declared parallel, with more than one job and not interactive, may overlap others')
+        check(r.is_parallel or not (par and not inter and decide(nproc > 1)), '... and such a test is marked parallel')
+    return h
+
+
+class VLoop(asyncio.SelectorEventLoop):
+    """virtual clock: time only moves when the harness moves it (no real waiting)"""
+    def __init__(self):
+        super().__init__(); self.vt = 0.0
+    def time(self): return self.vt
+
+
+def drain(loop):
+    for _ in range(1000):
+        loop.call_soon(loop.stop); loop.run_forever()
+        if not loop._ready: return
+
+
+class FakeProc:
+    def __init__(self, loop): self.pid = 4242; self.returncode = None; self.waiters = []; self.loop = loop
+    async def wait(self):
+        if self.returncode is not None: return self.returncode
+        w = self.loop.create_future(); self.waiters.append(w)
+        return await w
+    def finish(self, rc):
+        if self.returncode is not None: return
+        self.returncode = rc
+        for w in self.waiters:
+            if not w.done(): w.set_result(rc)
+    def kill(self): self.finish(-9)
+
+
+class OsProxy12:
+    def __init__(self, real, killpg): self._real = real; self.killpg = killpg
+    def __getattr__(self, n): return getattr(self._real, n)
+
+
+T_CH = [None, -1, 0, 2, 4]
+M_CH = [None, -1, 0, 1, 2, 0.5]
+D_CH = [0.5, 2.5, 5.5, None]      # when the program exits by itself (virtual seconds; None: never). Half steps: never exactly at a limit
+RC_CH = [0, 1, 77, 99]
+
+
+def ob_limit_enforcement():
+    """the real SingleTestRunner.__init__ -> TestRun -> TestSubprocess.wait / complete_all / _kill -> TestRunExitCode.complete on a virtual clock with a stub process:
+    TIMEOUT exactly when there is a limit and the program is still running when it passes - and then the process group is signalled; otherwise the run is classified by its exit status"""
+    def h():
+        import signal
+        t = T_CH[choose(len(T_CH), 'test timeout')]; m = M_CH[choose(len(M_CH), 'multiplier')]; d = D_CH[choose(len(D_CH), 'program exits at')]
+        rc = RC_CH[choose(len(RC_CH), 'exit status')]; sf = choose(2, 'should_fail') == 1
+        runner = M.SingleTestRunner(mk_test(t, True, sf), {'MALLOC_PERTURB_': '0'}, 'p:t', mk_options(m, False, 2))
+        run = runner.runobj
+        run.start(['/bin/true'])
+        loop = VLoop(); asyncio.set_event_loop(loop)
+        kills = []
+        proc = FakeProc(loop)
+
+        def killpg(pid, sig):
+            kills.append((pid, sig, loop.vt)); proc.finish(-int(sig))
+        saved = M.os
+        M.os = OsProxy12(saved, killpg)
+        try:
+            sp = M.TestSubprocess(proc, None, None)
+            if d is not None: loop.call_at(d, proc.finish, rc)
+            task = loop.create_task(sp.wait(run))
+            stuck = False
+            for _ in range(50):
+                drain(loop)
+                if task.done(): break
+                timers = [hh._when for hh in loop._scheduled if not hh._cancelled]
+                if not timers:
+                    stuck = True; break
+                loop.vt = max(loop.vt, min(timers))
+            limit = None if (t is None or t <= 0 or (m is not None and m <= 0)) else t * (1 if m is None else m)
+            if stuck:
+                check(limit is None and d is None, 'a test only runs on for ever without a limit')
+                check(not kills, 'a test without limit is never signalled')
+                cover('runs on')
+                proc.finish(rc)
+                drain(loop)
+            check(task.done(), 'wait() returns once the program has exited')
+            if task.done() and task.exception() is not None:
+                check(False, 'wait() does not raise'); return
+            run.complete()
+        finally:
+            M.os = saved
+            loop.close(); asyncio.set_event_loop(None)
+        timed_out = limit is not None and (d is None or d > limit)
+        if timed_out:
+            check(run.res is M.TestResult.TIMEOUT, 'TIMEOUT when the limit passes while the program is running')
+            check(len(kills) >= 1 and kills[0][0] == 4242 and kills[0][1] == signal.SIGTERM and kills[0][2] == limit, '... and the process group is then signalled, at the limit')
+            cover('timeout')
+        else:
+            check(not kills, 'a program that exits within its limit (or has none) is never signalled')
+            base = {0: 'OK', 77: 'SKIP', 99: 'ERROR'}.get(rc, 'FAIL')
+            if sf and base in ('OK', 'FAIL'): base = 'UNEXPECTEDPASS' if base == 'OK' else 'EXPECTEDFAIL'
+            check(run.res.name == base, 'classified by the exit status (no TIMEOUT without a limit that passed)')
+            check(run.returncode == rc, 'the exit status is the program\'s')
+            cover('classified')
+    return h
+
+
 def obligations(tier):
     q = tier == 'quick'
     out = []
@@ -298,6 +432,11 @@ def obligations(tier):
                               labels=tuple(NAMES), max_paths=3000000))
     out.append(Obligation('select', ob_select(), dict(tests='p:a1 p:a2 q:a1 q:b1', patterns='1-3 of %d name patterns (overlapping ones included)' % len(PATTERNS)), labels=('selected', 'sliced'), optional_labels=('nothing',)))
     out.append(Obligation('doit-job-clamp', ob_doit(), dict(tests='1-3', num_processes='symbolic 1..6', repeat='symbolic 1..3'), labels=('done',)))
+    out.append(Obligation('limit-computation', ob_limit_computation(), dict(test_timeout='absent | any integer', timeout_multiplier='absent | integer -3..12 (a float in the enforcement obligation)',
+                                                                            interactive='symbolic', num_processes='1..4', declared_parallel='symbolic'), labels=('unlimited', 'limited')))
+    out.append(Obligation('limit-enforcement', ob_limit_enforcement(), dict(test_timeout=str(T_CH), multiplier=str(M_CH), program_exits_at=str(D_CH), exit_status=str(RC_CH), should_fail='both',
+                                                                            clock='virtual (asyncio loop with a harness-controlled time())', process='stub with pid, wait(), kill(); os.killpg recorded'),
+                          labels=('timeout', 'classified', 'runs on')))
     for n in (1, 3, 4) if q else (1, 2, 3, 4, 5, 6):
         out.append(Obligation('slice[%d tests]' % n, ob_slice(n), dict(tests=n, slice_arg='d/d with symbolic digits'), labels=('partition', 'rejected')))
     return out
